@@ -260,3 +260,292 @@ Section H.
     destruct (encfail mf); [destruct pol; simpl; constructor; exact IH || constructor | simpl; constructor; exact IH].
   Qed.
 End H.
+
+(* ------------------------------------------------------------------ handle, rewritten by cases *)
+Section H2.
+  Variable fam : Type.
+  Implicit Types i : hin fam.
+
+  (* the gather error ends the request before anything is encoded *)
+  Definition stops i : bool :=
+    h_gerr i && match h_policy i with
+                | PPanic | PHttpError => true
+                | PContinue => match h_mfs i with [] => true | _ => false end
+                | POther => false
+                end.
+
+  Definition served_out i : hout fam :=
+    let g := if h_gerr i then 1 else 0 in
+    let '(l, e, x) := enc_loop (h_policy i) (h_encfail i) (h_mfs i) in
+    let mk := mkOut 200 (Some (h_ct i)) (cenc_of fam i) false (writer_of fam i) l in
+    match x with
+    | LPanic => mk false g e 1 1 true
+    | LAbort => mk false g e 1 1 false
+    | LNormal =>
+        if h_closefail i then
+          match h_policy i with PPanic => mk false g (e + 1) 1 1 true | _ => mk false g (e + 1) 1 1 false end
+        else mk true g e 1 1 false
+    end.
+
+  Lemma handle_eq i :
+    handle i = if negb (sem_admits (h_limit i) (h_inflight i)) then out503
+               else if stops i then match h_policy i with PPanic => out_gather_panic | _ => out500 end
+               else served_out i.
+  Proof.
+    unfold handle, stops, served_out, cenc_of, writer_of, comps_of.
+    destruct (sem_admits (h_limit i) (h_inflight i)); [|reflexivity]. cbv [negb].
+    destruct (negotiate_writer (h_ae i) (compressions (h_disable i) (h_offered i) (h_zstd i)) (h_zstd i)) as [[w0 hdr0] err].
+    destruct (h_gerr i); [destruct (h_policy i); try reflexivity; destruct (h_mfs i); reflexivity | reflexivity].
+  Qed.
+
+  (* ---- excess requests ---- *)
+  Lemma rejected_lemma i : sem_admits (h_limit i) (h_inflight i) = false -> handle i = out503.
+  Proof. intros A. rewrite handle_eq, A. reflexivity. Qed.
+
+  (* ---- done() and Gather() exactly once on every path that passed the semaphore ---- *)
+  Lemma done_once_lemma i : sem_admits (h_limit i) (h_inflight i) = true ->
+    o_done (handle i) = 1 /\ o_gathers (handle i) = 1 /\ o_gathering (handle i) = (if h_gerr i then 1 else 0).
+  Proof.
+    intros A. rewrite handle_eq, A. cbv [negb]. unfold stops, served_out.
+    destruct (h_gerr i) eqn:G; simpl.
+    - destruct (h_policy i); try (repeat split; reflexivity);
+        try (destruct (h_mfs i); [repeat split; reflexivity|]);
+        destruct (enc_loop _ (h_encfail i) _) as [[l e] x]; destruct x; try destruct (h_closefail i); repeat split; reflexivity.
+    - destruct (enc_loop (h_policy i) (h_encfail i) (h_mfs i)) as [[l e] x]; destruct x; try destruct (h_closefail i);
+        try destruct (h_policy i); repeat split; reflexivity.
+  Qed.
+
+  Definition is_err500 (o : hout fam) : Prop :=
+    o_status o = 500 /\ o_plain o = true /\ o_cenc o = None /\ o_ctype o = None /\ o_encoded o = [] /\
+    o_panic o = false /\ o_gathering o = 1 /\ o_encoding o = 0 /\ o_done o = 1.
+
+  (* how often the "encoding" counter must move: once per failing Encode/Close call that happens *)
+  Definition spec_encoding_count i : Z :=
+    let cf := if h_closefail i then 1 else 0 in
+    let n := nfails fam (h_encfail i) (h_mfs i) in
+    match h_policy i with
+    | PContinue | POther => n + cf
+    | _ => if n =? 0 then cf else 1
+    end.
+
+  Lemma policy_table_lemma i : sem_admits (h_limit i) (h_inflight i) = true -> h_gerr i = true ->
+    match h_policy i with
+    | PHttpError => is_err500 (handle i)
+    | PContinue =>
+        match h_mfs i with
+        | [] => is_err500 (handle i)
+        | _ => o_status (handle i) = 200 /\ o_plain (handle i) = false /\ o_panic (handle i) = false /\
+               o_encoded (handle i) = filter (fun f => negb (h_encfail i f)) (h_mfs i) /\
+               o_gathering (handle i) = 1 /\ o_encoding (handle i) = spec_encoding_count i /\ o_done (handle i) = 1 /\
+               (spec_encoding_count i = 0 -> o_encoded (handle i) = h_mfs i /\ o_closed (handle i) = true)
+        end
+    | PPanic => o_panic (handle i) = true /\ o_encoded (handle i) = [] /\ o_gathering (handle i) = 1 /\
+                o_encoding (handle i) = 0 /\ o_done (handle i) = 1
+    | POther => True
+    end.
+  Proof.
+    intros A G. rewrite handle_eq, A. cbv [negb]. unfold stops. rewrite G. simpl.
+    destruct (h_policy i) eqn:P; try (repeat split; reflexivity).
+    destruct (h_mfs i) as [|m r] eqn:M; [repeat split; reflexivity|].
+    unfold served_out, spec_encoding_count. rewrite P, G, M.
+    rewrite (enc_loop_continue fam PContinue (h_encfail i) (m :: r)) by (left; reflexivity).
+    pose proof (count_true_nonneg (h_encfail i) (m :: r)) as NN. fold (nfails fam (h_encfail i) (m :: r)) in NN.
+    destruct (h_closefail i); simpl.
+    - repeat split; try reflexivity. intros Z0. lia.
+    - repeat split; try reflexivity; try lia.
+      + intros Z0. rewrite Z.add_0_r in Z0. rewrite (enc_loop_clean fam PContinue) in * by exact Z0.
+        pose proof (enc_loop_continue fam PContinue (h_encfail i) (m :: r) (or_introl eq_refl)) as E.
+        rewrite (enc_loop_clean fam PContinue _ _ Z0) in E. inversion E. congruence.
+  Qed.
+
+  (* a successful gather, or a tolerated partial one: what is served *)
+  Lemma served_lemma i : sem_admits (h_limit i) (h_inflight i) = true -> stops i = false ->
+    handle i = served_out i.
+  Proof. intros A S. rewrite handle_eq, A, S. reflexivity. Qed.
+
+  Lemma encoding_count_lemma i : sem_admits (h_limit i) (h_inflight i) = true -> stops i = false ->
+    o_encoding (handle i) = spec_encoding_count i.
+  Proof.
+    intros A S. rewrite served_lemma by assumption. unfold served_out, spec_encoding_count.
+    pose proof (count_true_nonneg (h_encfail i) (h_mfs i)) as NN. fold (nfails fam (h_encfail i) (h_mfs i)) in NN.
+    destruct (nfails fam (h_encfail i) (h_mfs i) =? 0) eqn:Z0.
+    - apply Z.eqb_eq in Z0. rewrite (enc_loop_clean fam _ _ _ Z0). rewrite Z0.
+      destruct (h_closefail i); destruct (h_policy i); reflexivity.
+    - apply Z.eqb_neq in Z0. destruct (h_policy i) eqn:P.
+      + destruct (enc_loop_stop fam PHttpError (h_encfail i) (h_mfs i) (or_introl eq_refl) Z0) as (l & E & _). rewrite E. reflexivity.
+      + rewrite (enc_loop_continue fam PContinue) by (left; reflexivity). destruct (h_closefail i); simpl; lia.
+      + destruct (enc_loop_stop fam PPanic (h_encfail i) (h_mfs i) (or_intror eq_refl) Z0) as (l & E & _). rewrite E. reflexivity.
+      + rewrite (enc_loop_continue fam POther) by (right; reflexivity). destruct (h_closefail i); simpl; lia.
+  Qed.
+
+  (* ---- Content-Encoding clauses ---- *)
+  Lemma handle_cenc i : o_cenc (handle i) = None \/ o_cenc (handle i) = cenc_of fam i.
+  Proof.
+    rewrite handle_eq. destruct (negb _); [left; reflexivity|].
+    destruct (stops i); [left; destruct (h_policy i); reflexivity|]. right.
+    unfold served_out. destruct (enc_loop _ _ _) as [[l e] x]. destruct x; try destruct (h_closefail i); try destruct (h_policy i); reflexivity.
+  Qed.
+
+  Lemma chosen_encoding_lemma i :
+    cenc_allowed (h_disable i) (compressions (h_disable i) (h_offered i) (h_zstd i)) (parse_accept (h_ae i)) (o_cenc (handle i)) = true.
+  Proof.
+    destruct (handle_cenc i) as [E|E]; rewrite E; [reflexivity | apply cenc_of_allowed].
+  Qed.
+
+  Lemma no_encoding_lemma i :
+    (h_disable i = true \/
+     (forall c, In c (compressions (h_disable i) (h_offered i) (h_zstd i)) -> c = s_gzip \/ c = s_zstd ->
+                accepted_nonzero (parse_accept (h_ae i)) c = false) \/
+     o_status (handle i) <> 200) ->
+    o_cenc (handle i) = None.
+  Proof.
+    intros H. pose proof (chosen_encoding_lemma i) as A.
+    destruct (o_cenc (handle i)) as [c|] eqn:E; [exfalso|reflexivity]. simpl in A.
+    apply andb_true_iff in A. destruct A as [A A4]. apply andb_true_iff in A. destruct A as [A A3].
+    apply andb_true_iff in A. destruct A as [A1 A2].
+    destruct H as [H | [H | H]].
+    - rewrite H in A1. discriminate.
+    - apply str_in_In in A2. apply orb_true_iff in A3.
+      rewrite (H c A2) in A4; [discriminate|]. destruct A3 as [A3|A3]; apply str_eqb_eq in A3; [left|right]; exact A3.
+    - apply H. revert E. rewrite handle_eq. destruct (negb _); [discriminate|].
+      destruct (stops i); [destruct (h_policy i); discriminate|]. intros _.
+      unfold served_out. destruct (enc_loop _ _ _) as [[l e] x]. destruct x; try destruct (h_closefail i); try destruct (h_policy i); reflexivity.
+  Qed.
+
+  (* ---- the body ---- *)
+  Section Body.
+    Variable bytes : Type.
+    Variables (encode encode_open : str -> list fam -> bytes) (error_text : bytes) (gz zs ungz unzs : bytes -> bytes).
+    Variable decode : str -> bytes -> list fam.
+    Hypothesis gz_inv : forall b, ungz (gz b) = b.
+    Hypothesis zs_inv : forall b, unzs (zs b) = b.
+    Hypothesis codec_inv : forall ct fs, decode ct (encode ct fs) = fs.
+
+    Lemma unwrap_wrap i b : unwrap ungz unzs (cenc_of fam i) (wrap gz zs (writer_of fam i) b) = Some b.
+    Proof.
+      destruct (cenc_writer_agree fam i) as [[C W] | [[C W] | [C [W _]]]]; rewrite C, W; simpl.
+      - reflexivity.
+      - rewrite gz_inv. reflexivity.
+      - rewrite zs_inv. reflexivity.
+    Qed.
+
+    Lemma body_lemma i : sem_admits (h_limit i) (h_inflight i) = true ->
+      (h_gerr i = false \/ (h_policy i = PContinue /\ h_mfs i <> [])) ->
+      (forall f, In f (h_mfs i) -> h_encfail i f = false) -> h_closefail i = false ->
+      let o := handle i in
+      o_status o = 200 /\ o_ctype o = Some (h_ct i) /\ o_panic o = false /\
+      option_map (decode (h_ct i)) (unwrap ungz unzs (o_cenc o) (body encode encode_open error_text gz zs i o)) = Some (h_mfs i).
+    Proof.
+      intros A S F C. assert (St : stops i = false).
+      { unfold stops. destruct S as [S | [S1 S2]]; [rewrite S; reflexivity|]. rewrite S1. destruct (h_mfs i); [contradiction S2; reflexivity|].
+        apply andb_false_r. }
+      assert (N : nfails fam (h_encfail i) (h_mfs i) = 0).
+      { unfold nfails, count_true. induction (h_mfs i) as [|m r IH]; [reflexivity|]. simpl. rewrite (F m (or_introl eq_refl)). apply IH.
+        intros f Hf. apply F. right. exact Hf. }
+      simpl. rewrite served_lemma by assumption. unfold served_out. rewrite (enc_loop_clean fam _ _ _ N), C. simpl.
+      repeat split; try reflexivity. unfold body. simpl. rewrite unwrap_wrap. simpl. rewrite codec_inv. reflexivity.
+    Qed.
+  End Body.
+End H2.
+
+(* ------------------------------------------------------------------ the model satisfies the executable specification *)
+Lemma zs_eqb_refl l : zs_eqb l l = true.
+Proof. induction l; simpl; [reflexivity|]. rewrite Z.eqb_refl. exact IHl. Qed.
+
+Lemma subseq_b_tail x a b : subseq_b (x :: a) b = true -> subseq_b a b = true.
+Proof.
+  revert x a. induction b as [|y b IH]; intros x a H; simpl in H; [discriminate|].
+  destruct a as [|x' a]; [reflexivity|]. simpl. destruct (x =? y).
+  - destruct (x' =? y); [eapply IH; exact H | exact H].
+  - destruct (x' =? y); [eapply IH; eapply IH; exact H | eapply IH; exact H].
+Qed.
+
+Lemma subseq_b_of_sub a b : sub a b -> subseq_b a b = true.
+Proof.
+  induction 1 as [l | x a b _ IH | y a b _ IH].
+  - destruct l; reflexivity.
+  - simpl. rewrite Z.eqb_refl. exact IH.
+  - destruct a as [|x a]; [reflexivity|]. simpl. destruct (x =? y); [eapply subseq_b_tail; exact IH | exact IH].
+Qed.
+
+Lemma sub_map {A B} (f : A -> B) a b : sub a b -> sub (map f a) (map f b).
+Proof. induction 1; simpl; constructor; assumption. Qed.
+
+Definition F := (Z * bool)%type.
+
+Lemma counters_obs (i : hin F) tr rg (o : hout F) g e :
+  o_gathering o = g -> o_encoding o = e -> counters_are (obs_of i tr rg o) g e = true.
+Proof.
+  intros <- <-. unfold counters_are, obs_of. simpl. destruct rg; [rewrite !Z.eqb_refl|]; reflexivity.
+Qed.
+
+Lemma served_ok (i : hin F) tr rg : spec_served i (obs_of i tr rg (served_out F i)) = true.
+Proof.
+  unfold spec_served, spec_nfail.
+  pose proof (count_true_nonneg (h_encfail i) (h_mfs i)) as NN.
+  pose proof (cenc_of_allowed F i) as CA. unfold comps_of in CA.
+  set (n := count_true (h_encfail i) (h_mfs i)) in *.
+  assert (Hn : nfails F (h_encfail i) (h_mfs i) = n) by reflexivity.
+  destruct (n =? 0) eqn:N0.
+  - (* no Encode call fails *)
+    apply Z.eqb_eq in N0. pose proof (enc_loop_clean F (h_policy i) (h_encfail i) (h_mfs i)) as E.
+    rewrite Hn in E. specialize (E N0). rewrite N0.
+    destruct (h_closefail i) eqn:C; simpl.
+    + destruct (h_policy i) eqn:P; simpl; unfold served_out; rewrite E, C, P; simpl;
+        try (rewrite str_eqb_refl, CA, (subseq_b_of_sub _ _ (sub_refl _)); simpl);
+        try (rewrite zs_eqb_refl);
+        repeat (rewrite counters_obs by reflexivity); reflexivity.
+    + unfold served_out; rewrite E, C; simpl.
+      rewrite str_eqb_refl, CA, (subseq_b_of_sub _ _ (sub_refl _)), zs_eqb_refl. simpl.
+      rewrite counters_obs by reflexivity. reflexivity.
+  - apply Z.eqb_neq in N0.
+    assert (NZ : (n + (if h_closefail i then 1 else 0) =? 0) = false) by (apply Z.eqb_neq; destruct (h_closefail i); lia).
+    rewrite NZ. simpl.
+    destruct (h_policy i) eqn:P; simpl.
+    + destruct (enc_loop_stop F PHttpError (h_encfail i) (h_mfs i) (or_introl eq_refl)) as (l & E & S); [rewrite Hn; exact N0|].
+      unfold served_out. rewrite P, E. simpl.
+      rewrite str_eqb_refl, CA, (subseq_b_of_sub _ _ (sub_map fst _ _ S)). simpl.
+      rewrite counters_obs by reflexivity. reflexivity.
+    + pose proof (enc_loop_continue F PContinue (h_encfail i) (h_mfs i) (or_introl eq_refl)) as E. rewrite Hn in E.
+      pose proof (enc_loop_sub F PContinue (h_encfail i) (h_mfs i)) as S. rewrite E in S. simpl in S.
+      unfold served_out. rewrite P, E. destruct (h_closefail i); simpl;
+        rewrite str_eqb_refl, CA, (subseq_b_of_sub _ _ (sub_map fst _ _ S)), zs_eqb_refl; simpl;
+        rewrite counters_obs; try reflexivity; simpl; lia.
+    + destruct (enc_loop_stop F PPanic (h_encfail i) (h_mfs i) (or_intror eq_refl)) as (l & E & S); [rewrite Hn; exact N0|].
+      unfold served_out. rewrite P, E. simpl. rewrite counters_obs by reflexivity. reflexivity.
+    + pose proof (enc_loop_continue F POther (h_encfail i) (h_mfs i) (or_intror eq_refl)) as E. rewrite Hn in E.
+      pose proof (enc_loop_sub F POther (h_encfail i) (h_mfs i)) as S. rewrite E in S. simpl in S.
+      unfold served_out. rewrite P, E. destruct (h_closefail i); simpl;
+        rewrite str_eqb_refl, CA, (subseq_b_of_sub _ _ (sub_map fst _ _ S)), zs_eqb_refl; simpl;
+        rewrite counters_obs; try reflexivity; simpl; lia.
+Qed.
+
+Lemma served_out_calls (i : hin F) : o_gathers (served_out F i) = 1 /\ o_done (served_out F i) = 1.
+Proof.
+  unfold served_out. destruct (enc_loop _ _ _) as [[l e] x]. destruct x; try destruct (h_closefail i); try destruct (h_policy i); split; reflexivity.
+Qed.
+
+Lemma handle_satisfies_spec_lemma : forall (i : hin F) tr rg, spec_ok i (obs_of i tr rg (handle i)) = true.
+Proof.
+  intros i tr rg. unfold spec_ok. rewrite handle_eq. unfold sem_admits. rewrite negb_involutive.
+  destruct ((0 <? h_limit i) && (h_limit i <=? h_inflight i)).
+  - unfold counters_are, no_cenc, obs_of. simpl. destruct rg; reflexivity.
+  - unfold stops. destruct (h_gerr i) eqn:G; simpl.
+    + destruct (h_policy i) eqn:P.
+      * unfold spec_err500, counters_are, no_cenc, obs_of. simpl. destruct rg; reflexivity.
+      * destruct (h_mfs i) as [|m r] eqn:M.
+        -- unfold spec_err500, counters_are, no_cenc, obs_of. simpl. destruct rg; reflexivity.
+        -- destruct (served_out_calls i) as [A B]. rewrite <- M.
+           replace (b_gathers (obs_of i tr rg (served_out F i))) with (o_gathers (served_out F i)) by reflexivity.
+           replace (b_done (obs_of i tr rg (served_out F i))) with (o_done (served_out F i)) by reflexivity.
+           rewrite A, B, served_ok. reflexivity.
+      * unfold counters_are, obs_of. simpl. destruct rg; reflexivity.
+      * destruct (served_out_calls i) as [A B].
+        replace (b_gathers (obs_of i tr rg (served_out F i))) with (o_gathers (served_out F i)) by reflexivity.
+        replace (b_done (obs_of i tr rg (served_out F i))) with (o_done (served_out F i)) by reflexivity.
+        rewrite A, B. reflexivity.
+    + destruct (served_out_calls i) as [A B].
+      replace (b_gathers (obs_of i tr rg (served_out F i))) with (o_gathers (served_out F i)) by reflexivity.
+      replace (b_done (obs_of i tr rg (served_out F i))) with (o_done (served_out F i)) by reflexivity.
+      rewrite A, B, served_ok. reflexivity.
+Qed.
